@@ -14,7 +14,8 @@ EXPLANATION = ("D1 every used set is built from all reference fields that point 
                "the stage that purges X; D3 each stage assigns its target from target.iter().cloned().filter(p).collect() (order kept) and nothing else "
                "of the model is written; D4 bridges are kept iff |l| > eps, eps <= 1e-6; D5 follows from D1")
 DECIDED = ["D1 used sets complete w.r.t. the reference graph", "D2 stage order = reachability order", "D3 order kept, nothing else written",
-           "D4 zero-length bridge predicate", "D5 no broken link introduced (consequence of D1)"]
+           "D4 zero-length bridge predicate", "D5 no broken link introduced (consequence of D1)",
+           "D6 the ids in use are collected from all referring elements (no filter/take/skip on the way)"]
 UNDECIDED = ["'changes no indicator' (needs the indicators' read set)"]
 ASSUMPTIONS = ["std iterator adaptors iter/cloned/filter/collect::<Vec<_>> preserve order; HashSet::contains is membership"]
 LEVEL_TEXT = ("Proof from extracted read/write sets: for each of the 12 purge stages the set of ids that protects items from removal is shown to be built from "
